@@ -4155,6 +4155,8 @@ def tie_notes(part):
         # keep the list of stopping slurs, we need to transfer them to the last
         # tied note
         slur_stops = cur_note.slur_stops
+        # a tie to a following note must be re-attached to the last piece
+        orig_tie_next = note.tie_next
 
         while next_measure and cur_note.end > next_measure.start:
             part.remove(cur_note, "end")
@@ -4199,6 +4201,9 @@ def tie_notes(part):
             next_measure = next(cur_note.start.iter_next(Measure), None)
 
         if cur_note != note:
+            cur_note.tie_next = orig_tie_next
+            if orig_tie_next is not None:
+                orig_tie_next.tie_prev = cur_note
             for slur in slur_stops:
                 slur.end_note = cur_note
 
@@ -4307,6 +4312,8 @@ def split_note(part, note, splits):
         part.add(cur_note, start, end)
 
     cur_note.tie_next = orig_tie_next
+    if orig_tie_next is not None:
+        orig_tie_next.tie_prev = cur_note
 
     if cur_note != note:
         for slur in slur_stops:
